@@ -681,7 +681,7 @@ def rule_l_whole_data_loops_cover_tof(ctx, unit):
     also run over ALL TOF bins and ask for the segment OF THAT BIN: each segment request made inside a loop over the segments names, as
     its TOF index, the variable of a loop get_min_tof_pos_num()..get_max_tof_pos_num() (step 1) that encloses the request - never the
     default (bin 0)."""
-    from engine.loops import describe
+    from engine.loops import bounds as loop_bounds
 
     n = 0
     seen = set()
@@ -696,13 +696,10 @@ def rule_l_whole_data_loops_cover_tof(ctx, unit):
         for lp in fn.walk():
             if lp.k != "ForStmt":
                 continue
-            d = describe(lp, names=False)
+            d = loop_bounds(lp, sub)
             if not d:
                 continue
-            vd = [m for m in lp.c[0].walk() if m.k == "VarDecl" and m.c]
-            init = key(vd[0].c[0].strip(), False, sub) if vd else (d.get("init") or "")
-            cond = lp.c[1].strip() if len(lp.c) == 4 else None
-            upper = key(cond.c[1].strip(), False, sub) if cond is not None and cond.k == "BinaryOperator" and cond.op == "<=" else ""
+            init, upper = d["init"], d["upper"]
             kind = None
             if re.search(r"get_min_tof_pos_num\(\)$", init) and re.search(r"get_max_tof_pos_num\(\)$", upper) and str(d.get("step")) == "1":
                 kind = "tof"
